@@ -117,7 +117,8 @@ def _work(arg):
             # real code (for this kind) under the counterexample's assignment
             try:
                 cr3 = ppsuite.crosscheck(case, pg.items, std_evalfn(quirks), files_text=files_text, kinds=(mm['kind'],),
-                                         want_origins=False, max_paths=fam.max_paths, ref_files=getattr(pg, 'ref_files', None))
+                                         want_origins=(mm['kind'] == 'origin' and fam.want_origins), max_paths=fam.max_paths,
+                                         ref_files=getattr(pg, 'ref_files', None))
                 still = False
                 for m3 in cr3.mismatches:
                     if m3['kind'] != mm['kind']:
